@@ -727,7 +727,14 @@ def rule_deflate(ck, consts):
             got = set()
             for node, c in sites:
                 for env, u in X.states_at(seen, node):
-                    got.add(origin(c.func.value, env, u))
+                    fenv = dict(cs)
+                    fenv.update(env)
+                    fenv = {k_: v_ for k_, v_ in fenv.items() if not (isinstance(v_, str) and v_ in (X.UNKNOWN, X.NOTNONE))}
+                    got.add(origin(c.func.value, fenv, u))
+            retained = {dict(u).get(attr) for _e, u in X.states_at(seen, fi.cfg.exit)}
+            if not persistent:
+                ck.ob(R, fi, fi.node, not (retained & {"fresh", "persist"}), "%s: without context takeover no zlib object is kept in %s after the call (a kept object would be reused for the next message)" % (fi.qualname, attr),
+                      construct="zlib object retained without context takeover: %s" % sorted(map(repr, retained)))
             if None in got or not got:
                 raise AnalysisError("%s: which zlib object performs %s() is not resolved (%s)" % (fi.qualname, op, sorted(map(repr, got))))
             want = {"persist"} if persistent else {"fresh"}
@@ -971,6 +978,7 @@ MUTANTS = [
     ("compressed payload computed but the original is sent (with RSV1)", _in(P13 + ".write_message", replace_stmt(lambda st: isinstance(st, ast.Assign) and ".compress(" in _src(st), lambda st: [ast.Expr(value=st.value)])), "C14.deflate-pairing"),
     ("frame handed to the stream twice", _in(P13 + "._write_frame", replace_stmt(lambda st: isinstance(st, ast.Return), lambda st: [parse_stmt("self.stream.write(frame)"), st])), "C14.len-table"),
     ("seeded C14-adv3: compressed output used only when smaller, else the raw message is sent (compressor already consumed it)", _in(P13 + ".write_message", lambda root: _compress_if_smaller(root)), "C14.deflate-pairing"),
+    ("seeded C14-adv6: compressor allocated lazily in compress() and kept; `persistent` never consulted", lambda repo: mutate(mutate(repo, W, "_PerMessageDeflateCompressor.__init__", lambda root: _lazy_init(root)), W, "_PerMessageDeflateCompressor.compress", lambda root: _lazy_compress(root)), "C14.deflate-pairing"),
     ("control-frame branch resets the reassembly buffer", _in(P13 + "._receive_frame", _ctl_branch_touches_buffer), "C14.ctl-no-msg-state"),
     ("continuation frames rewrite _frame_compressed (opcode != 0 dropped)", _in(P13 + "._receive_frame", replace_expr(lambda n: isinstance(n, ast.BoolOp) and "opcode != 0" in _src(n) and "_decompressor" in _src(n), lambda n: ast.BoolOp(op=n.op, values=[v for v in n.values if _src(v) != "opcode != 0"]))), "C14.ctl-no-msg-state"),
     ("undo the F11 repair (header side): control frames rewrite _frame_compressed", _in(P13 + "._receive_frame", replace_expr(lambda n: isinstance(n, ast.BoolOp) and "opcode != 0" in _src(n) and "_decompressor" in _src(n), lambda n: parse_expr("self._decompressor is not None and opcode != 0"))), "C14.ctl-no-msg-state"),
@@ -1004,5 +1012,21 @@ def _compress_if_smaller(root):
     for n in ast.walk(root):
         if isinstance(n, ast.If) and _src(n.test) == "self._compressor":
             n.body = ast.parse("compressed = self._compressor.compress(message)\nif len(compressed) <= len(message):\n    message = compressed\n    flags |= self.RSV1").body
+            return True
+    return False
+
+
+def _lazy_init(root):
+    for i, st in enumerate(root.body):
+        if isinstance(st, ast.If) and _src(st.test) == "persistent":
+            root.body[i : i + 1] = [parse_stmt("self._persistent = persistent"), parse_stmt("self._compressor = None")]
+            return True
+    return False
+
+
+def _lazy_compress(root):
+    for i, st in enumerate(root.body):
+        if isinstance(st, ast.Assign) and "_create_compressor" in _src(st):
+            root.body[i : i + 1] = [parse_stmt("if self._compressor is None:\n    self._compressor = self._create_compressor()"), parse_stmt("compressor = self._compressor")]
             return True
     return False
